@@ -20,8 +20,8 @@ import numpy as np
 HERE = os.path.dirname(os.path.abspath(__file__))
 if HERE not in sys.path:
     sys.path.insert(0, HERE)
-if "/repo" not in sys.path:
-    sys.path.insert(0, "/repo")
+if os.environ.get("VERIF_REPO", "/repo") not in sys.path:
+    sys.path.insert(0, os.environ.get("VERIF_REPO", "/repo"))
 
 import common
 from common import RtcResult
@@ -59,11 +59,11 @@ def make_replay(spec, contract, standalone=True):
     if standalone:
         head = (
             "# stand-alone replay of a drv_gauss failure (contract %s)\n"
-            "import sys\nsys.path.insert(0, '/repo')\nimport numpy as np\n"
+            "import sys, os\nsys.path.insert(0, os.environ.get('VERIF_REPO', '/repo'))\nimport numpy as np\n"
             "RTOL = %r\nATOL = %r\n\n%s\n\n" % (contract, common.RTOL, common.ATOL, inspect.getsource(common.close))
         )
         return head + _core_source() + tail
-    head = "# replay of a drv_gauss failure (contract %s); uses /verif/rtc/gauss_core.py\nimport sys\nsys.path[:0] = ['/repo', %r]\nfrom gauss_core import *\n" % (contract, HERE)
+    head = "# replay of a drv_gauss failure (contract %s); uses /verif/rtc/gauss_core.py\nimport sys, os\nsys.path[:0] = [os.environ.get('VERIF_REPO', '/repo'), %r]\nfrom gauss_core import *\n" % (contract, HERE)
     return head + tail
 
 
